@@ -61,6 +61,10 @@ type c04Temp float64
 type c04Tag string
 type c04Flag bool
 
+// defined types without methods: same kind, same meaning in comparisons
+type c04NStr string
+type c04NBool bool
+
 func (l c04Rank) String() string { return fmt.Sprintf("L%d", int(l)) }
 func (t c04Temp) String() string { return fmt.Sprintf("%.1f deg", float64(t)) }
 func (t c04Tag) String() string  { return "#" + string(t) }
@@ -121,7 +125,10 @@ func (g *c04Gen) numLeaf() *c04Expr {
 			txt += ".0"
 		}
 		return &c04Expr{Op: "num", Num: float64(v), Text: txt}
-	case 3: // fractional literal
+	case 3: // fractional literal (rarely: an integral literal beyond the int64 range - still a float)
+		if g.n(0, 9, "hugeLiteral") == 0 {
+			return &c04Expr{Op: "num", Num: 9223372036854775808, Text: []string{"9223372036854775808", "0x8000000000000000"}[g.n(0, 1, "hugeSpelling")]}
+		}
 		v := c04Floats[g.n(0, len(c04Floats)-1, "flit")]
 		return &c04Expr{Op: "num", Num: v, Text: strconv.FormatFloat(v, 'f', -1, 64)}
 	case 4, 5, 6:
@@ -241,7 +248,20 @@ func (g *c04Gen) boolean(d int) *c04Expr {
 		return g.style(&c04Expr{Op: "bin", Bop: op, A: g.num(d - 1), B: g.num(d - 1)})
 	case 3, 4:
 		op := []string{"==", "!="}[g.n(0, 1, "eq")]
-		switch g.n(0, 3, "eqkind") {
+		switch g.n(0, 4, "eqkind") {
+		case 4:
+			// values of defined string / bool types (no methods) against plain ones, in either order
+			var a, b *c04Expr
+			if g.n(0, 1, "namedKind") == 0 {
+				s := c04Strs[g.n(0, len(c04Strs)-1, "nsval")]
+				a, b = g.addVar(c04Var{Kind: "nstring", S: s}), g.str(0)
+			} else {
+				a, b = g.addVar(c04Var{Kind: "nbool", B: g.n(0, 1, "nbval") == 1}), g.boolean(0)
+			}
+			if g.n(0, 1, "namedSide") == 0 {
+				a, b = b, a
+			}
+			return g.style(&c04Expr{Op: "bin", Bop: op, A: a, B: b})
 		case 0:
 			return g.style(&c04Expr{Op: "bin", Bop: op, A: g.str(d - 1), B: g.str(d - 1)})
 		case 1:
@@ -532,6 +552,12 @@ func (ev *c04Eval) eval(e *c04Expr) c04Val {
 		if v.Kind == "nan" {
 			return c04Val{k: 'f', f: math.NaN()}
 		}
+		if v.Kind == "nstring" {
+			return c04Val{k: 's', s: v.S}
+		}
+		if v.Kind == "nbool" {
+			return c04Val{k: 'b', b: v.B}
+		}
 		switch {
 		case strings.HasPrefix(v.Kind, "int"):
 			return c04Val{k: 'i', i: v.I}
@@ -740,6 +766,10 @@ func (v c04Var) goValue() interface{} {
 		return c04Flag(v.B)
 	case "nan":
 		return math.NaN()
+	case "nstring":
+		return c04NStr(v.S)
+	case "nbool":
+		return c04NBool(v.B)
 	}
 	return v.B
 }
